@@ -68,14 +68,16 @@ example :
       ⟨7, ⟨48, pkt, true, true, true⟩⟩).isAccept = true := by decide
 
 /-- **accept_sound_scion**: whatever the SCION client accepts is a SCION/UDP packet from the
-    queried ISD-AS and host, addressed to the client's ISD-AS and host, authenticated when an
+    queried ISD-AS and host, addressed to the client's ISD-AS and host (`equalsIP`: the header's
+    address is of an IP type and is that IP address up to IPv4-mapping — spelled out in
+    `C05_scion_accepted_host_is_queried_host` below), authenticated when an
     authenticator with the server SPI and algorithm is present and a key is available, and
     meets every listed condition on the payload. -/
 theorem C05_accept_sound_scion (cfg : Cfg) (sc : ScionCtx) (prev : Prev) (req : Req) (cTx1 cRx : Int)
     (d : ScionDgram) (a : Accepted) (h : classifySCION cfg sc prev req cTx1 cRx d = .accept a) :
     d.decodeOk = true ∧ lastLayer d.decoded = some .udp ∧ d.udpLength ≤ d.bufLen ∧
-    d.srcIA = sc.remoteIA ∧ d.srcHost = sc.remoteHost ∧
-    d.dstIA = sc.localIA ∧ d.dstHost = sc.localHost ∧
+    d.srcIA = sc.remoteIA ∧ equalsIP d.srcHost sc.remoteHost = true ∧
+    d.dstIA = sc.localIA ∧ equalsIP d.dstHost sc.localHost = true ∧
     (∀ au, (d.decoded.length ≥ 3 && secondLast d.decoded == some .e2e) = true →
         sc.keyAvailable = true → d.authOpt = some au → au.spi = spiServer → au.alg = algCMAC →
         au.macOk = true) ∧
@@ -89,8 +91,8 @@ theorem C05_accept_sound_scion (cfg : Cfg) (sc : ScionCtx) (prev : Prev) (req : 
 example :
     let req : Req := ⟨false, zero64, zero64, ofTime 10000000000, 10000000000⟩
     let pkt : NtpPkt := ⟨36, 1, req.tx, ofTime 12000000100, ofTime 12000000200⟩
-    (classifySCION ⟨.scion, true, false, true⟩ ⟨1, 2, 3, 4, true⟩ Prev.init req 10000000050 10000000900
-      ⟨true, [.scion, .udp], 100, 56, 1, 2, 3, 4, none, none, ⟨48, pkt, true, true, true⟩⟩).isAccept = true := by
+    (classifySCION ⟨.scion, true, false, true⟩ ⟨1, [10, 0, 0, 2], 3, [10, 0, 0, 4], true⟩ Prev.init req 10000000050 10000000900
+      ⟨true, [.scion, .udp], 100, 56, 1, .v4 10 0 0 2, 3, .v4 10 0 0 4, none, none, ⟨48, pkt, true, true, true⟩⟩).isAccept = true := by
   decide
 
 /-- **never_offset_otherwise** (IP): an exchange yields an offset only through a datagram of
@@ -125,7 +127,8 @@ theorem C05_never_offset_otherwise_scion (cfg : Cfg) (sc : ScionCtx) (prev : Pre
     let res := exchangeSCION cfg sc prev reference now cTx1 evs
     (∀ a n, res.1 = .accepted a n →
       n ≤ 2 ∧ ∃ d cRx b, Event.dgram d cRx b ∈ evs ∧
-        d.srcIA = sc.remoteIA ∧ d.srcHost = sc.remoteHost ∧ d.dstIA = sc.localIA ∧ d.dstHost = sc.localHost ∧
+        d.srcIA = sc.remoteIA ∧ equalsIP d.srcHost sc.remoteHost = true ∧
+        d.dstIA = sc.localIA ∧ equalsIP d.dstHost sc.localHost = true ∧
         PayloadOk cfg req d.payload a) ∧
     (res.1.hasOffset = false → res.2 = prev) := by
   intro req res
@@ -340,15 +343,15 @@ example :
     let req : Req := ⟨false, zero64, zero64, ofTime 10000000000, 10000000000⟩
     let pay : Payload := ⟨48, ⟨36, 1, req.tx, ofTime 12000000100, ofTime 12000000200⟩, true, true, true⟩
     let cfg : Cfg := ⟨.scion, true, false, true⟩
-    let sc : ScionCtx := ⟨1, 2, 3, 4, true⟩
+    let sc : ScionCtx := ⟨1, [10, 0, 0, 2], 3, [10, 0, 0, 4], true⟩
     classifySCION cfg sc Prev.init req 10000000050 10000000900
-      ⟨true, [.scion, .hbh, .e2e, .udp], 132, 56, 1, 2, 3, 4, none, some ⟨true, spiServer, algCMAC, false⟩, pay⟩
+      ⟨true, [.scion, .hbh, .e2e, .udp], 132, 56, 1, .v4 10 0 0 2, 3, .v4 10 0 0 4, none, some ⟨true, spiServer, algCMAC, false⟩, pay⟩
       = .skip .auth ∧
     (classifySCION cfg sc Prev.init req 10000000050 10000000900
-      ⟨true, [.scion, .hbh, .e2e, .udp], 132, 56, 1, 2, 3, 4, none, some ⟨true, spiServer, algCMAC, true⟩, pay⟩).isAccept
+      ⟨true, [.scion, .hbh, .e2e, .udp], 132, 56, 1, .v4 10 0 0 2, 3, .v4 10 0 0 4, none, some ⟨true, spiServer, algCMAC, true⟩, pay⟩).isAccept
       = true ∧
     (classifySCION cfg sc Prev.init req 10000000050 10000000900
-      ⟨true, [.scion, .hbh, .udp], 100, 56, 1, 2, 3, 4, none, none, pay⟩).isAccept = true := by
+      ⟨true, [.scion, .hbh, .udp], 100, 56, 1, .v4 10 0 0 2, 3, .v4 10 0 0 4, none, none, pay⟩).isAccept = true := by
   decide
 
 /-! ### The exported `MeasureClockOffsetIP` (up to three attempts) -/
@@ -467,6 +470,8 @@ theorem C05_scion_basic_no_panic (cfg : Cfg) (sc : ScionCtx) (prev : Prev) (req 
   split
   · simp
   split
+  · rename_i hnone; simp [addrCheck] at hnone
+  split
   · simp
   dsimp only
   split
@@ -491,11 +496,11 @@ theorem C05_scion_basic_no_panic (cfg : Cfg) (sc : ScionCtx) (prev : Prev) (req 
 theorem C05_scion_malformed_authenticator_old_counterexample :
     let req : Req := ⟨false, zero64, zero64, ofTime 4000000000000, 4000000000000⟩
     let pkt : NtpPkt := ⟨36, 1, req.tx, ofTime 4000000100000, ofTime 4000000200000⟩
-    let d : ScionDgram := ⟨true, [.scion, .e2e, .udp], 160, 56, 1, 2, 3, 4, none, some ⟨false, 0, 0, false⟩,
+    let d : ScionDgram := ⟨true, [.scion, .e2e, .udp], 160, 56, 1, .v4 10 0 0 2, 3, .v4 10 0 0 4, none, some ⟨false, 0, 0, false⟩,
       ⟨48, pkt, true, true, true⟩⟩
-    classifySCIONAuthOld ⟨.scion, true, false, true⟩ ⟨1, 2, 3, 4, true⟩ Prev.init req 4000000050000 4000000900000 d
+    classifySCIONAuthOld ⟨.scion, true, false, true⟩ ⟨1, [10, 0, 0, 2], 3, [10, 0, 0, 4], true⟩ Prev.init req 4000000050000 4000000900000 d
       = .panic ∧
-    classifySCION ⟨.scion, true, false, true⟩ ⟨1, 2, 3, 4, true⟩ Prev.init req 4000000050000 4000000900000 d
+    classifySCION ⟨.scion, true, false, true⟩ ⟨1, [10, 0, 0, 2], 3, [10, 0, 0, 4], true⟩ Prev.init req 4000000050000 4000000900000 d
       = .skip .auth := by
   decide
 
@@ -505,12 +510,208 @@ theorem C05_scion_malformed_authenticator_old_counterexample :
 theorem C05_scion_tsopt_old_counterexample :
     let req : Req := ⟨false, zero64, zero64, ofTime 4000000000000, 4000000000000⟩
     let pkt : NtpPkt := ⟨36, 1, req.tx, ofTime 4000000100000, ofTime 4000000200000⟩
-    let d : ScionDgram := ⟨true, [.scion, .e2e, .udp], 160, 56, 1, 2, 3, 4, some 400000000000, none,
+    let d : ScionDgram := ⟨true, [.scion, .e2e, .udp], 160, 56, 1, .v4 10 0 0 2, 3, .v4 10 0 0 4, some 400000000000, none,
       ⟨48, pkt, true, true, true⟩⟩
-    classifySCIONOld ⟨.scion, true, false, true⟩ ⟨1, 2, 3, 4, false⟩ Prev.init req 4000000050000 4000000900000 d
+    classifySCIONOld ⟨.scion, true, false, true⟩ ⟨1, [10, 0, 0, 2], 3, [10, 0, 0, 4], false⟩ Prev.init req 4000000050000 4000000900000 d
       = .panic ∧
-    (classifySCION ⟨.scion, true, false, true⟩ ⟨1, 2, 3, 4, false⟩ Prev.init req 4000000050000 4000000900000 d).isAccept
+    (classifySCION ⟨.scion, true, false, true⟩ ⟨1, [10, 0, 0, 2], 3, [10, 0, 0, 4], false⟩ Prev.init req 4000000050000 4000000900000 d).isAccept
       = true := by
+  decide
+
+/-! ### Host addresses of a received SCION header (C05 "from the queried host … addressed to the
+client"; C08: the address bytes and the address type are network input) -/
+
+/-- "Equal up to IPv4-mapping", spelled out on the bytes: two slices that `netip.AddrFromSlice`
+    and `Unmap` send to the same address are the same slice, or one is the other with the
+    twelve bytes `::ffff:` in front. -/
+theorem C05_unmapIP_same (x y a : List Nat) (hx : unmapIP x = some a) (hy : unmapIP y = some a) :
+    x = y ∨ x = v4mappedPrefix ++ y ∨ y = v4mappedPrefix ++ x := by
+  unfold unmapIP at hx hy
+  split at hx
+  · rename_i lx
+    cases hx
+    split at hy
+    · cases hy; exact Or.inl rfl
+    · split at hy
+      · rename_i ly
+        split at hy
+        · rename_i hp
+          cases hy
+          refine Or.inr (Or.inr ?_)
+          rw [← hp]; exact (List.take_append_drop 12 y).symm
+        · cases hy; omega
+      · cases hy
+  · split at hx
+    · rename_i lx
+      split at hx
+      · rename_i hpx
+        cases hx
+        have lax : (x.drop 12).length = 4 := by simp [lx]
+        split at hy
+        · rename_i ly
+          cases hy
+          refine Or.inr (Or.inl ?_)
+          rw [← hpx]; exact (List.take_append_drop 12 x).symm
+        · split at hy
+          · rename_i ly
+            split at hy
+            · rename_i hpy
+              have h : y.drop 12 = x.drop 12 := Option.some.inj hy
+              left
+              rw [← List.take_append_drop 12 x, ← List.take_append_drop 12 y, hpx, hpy, h]
+            · cases hy; omega
+          · cases hy
+      · cases hx
+        split at hy
+        · cases hy; omega
+        · split at hy
+          · rename_i ly
+            split at hy
+            · have : (y.drop 12).length = 4 := by simp [ly]
+              cases hy; omega
+            · cases hy; exact Or.inl rfl
+          · cases hy
+    · cases hx
+
+/-- What `equalsIP` (repaired comparison) accepts: an address of an IP type whose bytes denote
+    the same IP address as `ip`, up to IPv4-mapping. -/
+theorem C05_equalsIP_sound (h : HostAddr) (ip : List Nat) (he : equalsIP h ip = true) :
+    (h.type = t4Ip ∨ h.type = t16Ip) ∧
+    (h.raw = ip ∨ h.raw = v4mappedPrefix ++ ip ∨ ip = v4mappedPrefix ++ h.raw) ∧
+    (h.raw.length = 4 ∨ h.raw.length = 16) := by
+  unfold equalsIP at he
+  simp only [Bool.and_eq_true, Bool.or_eq_true, beq_iff_eq] at he
+  obtain ⟨ht, hm⟩ := he
+  cases hx : unmapIP h.raw with
+  | none => rw [hx] at hm; simp at hm
+  | some a =>
+    cases hy : unmapIP ip with
+    | none => rw [hx, hy] at hm; simp at hm
+    | some b =>
+      rw [hx, hy] at hm
+      have hab : a = b := by simpa using hm
+      subst hab
+      refine ⟨ht, C05_unmapIP_same _ _ _ hx hy, ?_⟩
+      unfold unmapIP at hx
+      split at hx
+      · left; assumption
+      · split at hx
+        · right; assumption
+        · cases hx
+
+/-- **accepted source = queried host**: whatever the SCION client accepts carries, as source, an
+    address of an IP type that is the queried server's IP address up to IPv4-mapping, and as
+    destination likewise the client's own address. -/
+theorem C05_scion_accepted_host_is_queried_host (cfg : Cfg) (sc : ScionCtx) (prev : Prev) (req : Req)
+    (cTx1 cRx : Int) (d : ScionDgram) (a : Accepted)
+    (h : classifySCION cfg sc prev req cTx1 cRx d = .accept a) :
+    ((d.srcHost.type = t4Ip ∨ d.srcHost.type = t16Ip) ∧
+      (d.srcHost.raw = sc.remoteHost ∨ d.srcHost.raw = v4mappedPrefix ++ sc.remoteHost ∨
+        sc.remoteHost = v4mappedPrefix ++ d.srcHost.raw)) ∧
+    ((d.dstHost.type = t4Ip ∨ d.dstHost.type = t16Ip) ∧
+      (d.dstHost.raw = sc.localHost ∨ d.dstHost.raw = v4mappedPrefix ++ sc.localHost ∨
+        sc.localHost = v4mappedPrefix ++ d.dstHost.raw)) := by
+  obtain ⟨_, _, _, _, hs, _, hd, _, _⟩ := C05_accept_sound_scion cfg sc prev req cTx1 cRx d a h
+  exact ⟨⟨(C05_equalsIP_sound _ _ hs).1, (C05_equalsIP_sound _ _ hs).2.1⟩,
+         ⟨(C05_equalsIP_sound _ _ hd).1, (C05_equalsIP_sound _ _ hd).2.1⟩⟩
+
+/-- non-vacuity, and the shapes of the live stream `c05addr`: the server's IPv4 address in a
+    4-byte and in an IPv4-mapped 16-byte header field are the queried host; an IPv6 address that
+    merely ends in the server's four bytes (seeded change C05-7: `2001:db8::7f00:1` for
+    `127.0.0.1`), a service address with the same bytes, and 8- or 12-byte fields are not. -/
+example :
+    equalsIP (.v4 127 0 0 1) [127, 0, 0, 1] = true ∧
+    equalsIP ⟨t16Ip, v4mappedPrefix ++ [127, 0, 0, 1]⟩ [127, 0, 0, 1] = true ∧
+    equalsIP (.v4 127 0 0 1) (v4mappedPrefix ++ [127, 0, 0, 1]) = true ∧
+    equalsIP ⟨t16Ip, [0x20, 0x01, 0x0d, 0xb8, 0, 0, 0, 0, 0, 0, 0, 0, 127, 0, 0, 1]⟩ [127, 0, 0, 1] = false ∧
+    equalsIP ⟨t16Ip, [0, 0, 0, 0, 0, 0, 0, 0, 0, 0, 0, 0, 127, 0, 0, 1]⟩ [127, 0, 0, 1] = false ∧
+    equalsIP ⟨t4Svc, [127, 0, 0, 1]⟩ [127, 0, 0, 1] = false ∧
+    equalsIP ⟨1, [127, 0, 0, 1, 0, 0, 0, 0]⟩ [127, 0, 0, 1] = false ∧
+    equalsIP ⟨2, [0, 0, 0, 0, 0, 0, 0, 0, 127, 0, 0, 1]⟩ [127, 0, 0, 1] = false := by decide
+
+/-- **foreign or non-IP addresses are skipped**: a datagram that fails the source/destination
+    test — other ISD-AS, other host, service address, unassigned type, 8 or 12 address bytes —
+    is treated like any other datagram from someone else: the loop skips it (one retry, then
+    `errUnexpectedPacket` or an earlier structural error). Never a panic, never accepted, and
+    never an error returned at once. -/
+theorem C05_scion_foreign_address_is_skipped (cfg : Cfg) (sc : ScionCtx) (prev : Prev) (req : Req)
+    (cTx1 cRx : Int) (d : ScionDgram) (h : addrValid sc d = false) :
+    ∃ e, classifySCION cfg sc prev req cTx1 cRx d = .skip e := by
+  unfold classifySCION classifySCIONWith
+  split
+  · exact ⟨_, rfl⟩
+  split
+  · exact ⟨_, rfl⟩
+  split
+  · exact ⟨_, rfl⟩
+  split
+  · exact ⟨_, rfl⟩
+  split
+  · rename_i hn; simp [addrCheck] at hn
+  split
+  · exact ⟨_, rfl⟩
+  · rename_i hv; simp [addrCheck, h] at hv
+
+/-- **no panic through the address comparison** (C08): whatever type and bytes the host
+    addresses of a datagram have, if the SCION client's loop body panics at all, the panic is the
+    one of `ValidateResponseTimestamps` in the NTP stage — reached only with both addresses
+    valid — which `C05_scion_basic_no_panic` excludes for basic exchanges. -/
+theorem C05_scion_panic_only_from_timestamps (cfg : Cfg) (sc : ScionCtx) (prev : Prev) (req : Req)
+    (cTx1 cRx : Int) (d : ScionDgram) (h : classifySCION cfg sc prev req cTx1 cRx d = .panic) :
+    addrValid sc d = true ∧
+    ntpStage cfg prev req cTx1 (scionRxTime d cTx1 cRx) d.payload = .panic := by
+  unfold classifySCION classifySCIONWith at h
+  split at h
+  · cases h
+  split at h
+  · cases h
+  split at h
+  · cases h
+  split at h
+  · cases h
+  split at h
+  · rename_i hn; simp [addrCheck] at hn
+  split at h
+  · cases h
+  rename_i hv
+  have hv' : addrValid sc d = true := by simpa [addrCheck] using hv
+  refine ⟨hv', ?_⟩
+  dsimp only at h
+  split at h
+  · cases hopt : d.authOpt with
+    | none => rw [hopt] at h; exact h
+    | some au =>
+      rw [hopt] at h
+      dsimp only at h
+      split at h
+      · cases h
+      · split at h
+        · split at h
+          · cases h
+          · exact h
+        · exact h
+  · exact h
+
+/-- The code before the fix (`compareIPs`; client-side twin of F4a). Failing inputs found by the
+    check on the unrepaired code (stream `c05addr`, sig `C08:client:panic-on-datagram`, e.g.
+    `… ev=s:true:su:96:56:<ria>:t1x7f00000100000000:<lia>:t0x7f000001:…`): a response from the
+    queried ISD-AS whose source host field has address type 1 (8 bytes) made the client panic
+    ("unexpected IP address byte slice"); as repaired it is skipped. And (sig
+    `C05:scion:accepted-response-from-other-host`, `…:t4x7f000001:…`) a *service* address with the
+    server's four bytes was taken for the server; as repaired it is skipped as well. -/
+theorem C05_scion_compareIPs_old_counterexample :
+    let req : Req := ⟨false, zero64, zero64, ofTime 4000000000000, 4000000000000⟩
+    let pkt : NtpPkt := ⟨36, 1, req.tx, ofTime 4000000100000, ofTime 4000000200000⟩
+    let cfg : Cfg := ⟨.scion, true, false, true⟩
+    let sc : ScionCtx := ⟨1, [127, 0, 0, 1], 3, [127, 0, 0, 1], false⟩
+    let d8 : ScionDgram := ⟨true, [.scion, .udp], 96, 56, 1, ⟨1, [127, 0, 0, 1, 0, 0, 0, 0]⟩, 3, .v4 127 0 0 1,
+      none, none, ⟨48, pkt, true, true, true⟩⟩
+    let dsvc : ScionDgram := ⟨true, [.scion, .udp], 92, 56, 1, ⟨t4Svc, [127, 0, 0, 1]⟩, 3, .v4 127 0 0 1,
+      none, none, ⟨48, pkt, true, true, true⟩⟩
+    classifySCIONAddrOld cfg sc Prev.init req 4000000050000 4000000900000 d8 = .panic ∧
+    classifySCION cfg sc Prev.init req 4000000050000 4000000900000 d8 = .skip .unexpected ∧
+    (classifySCIONAddrOld cfg sc Prev.init req 4000000050000 4000000900000 dsvc).isAccept = true ∧
+    classifySCION cfg sc Prev.init req 4000000050000 4000000900000 dsvc = .skip .unexpected := by
   decide
 
 /-! ### F13: entry of the per-exchange functions -/
